@@ -155,6 +155,10 @@ def concrete_check(text, indent, with_comments=False):
     from calmjs.parse.parsers.es5 import parse
     from calmjs.parse.unparsers.es5 import pretty_print
     out = pretty_print(parse(text, with_comments=with_comments), indent_str=indent)
+    return judge_output(out, indent, with_comments)
+
+
+def judge_output(out, indent, with_comments=False):
     lines = out.split('\n')
     skel = [re.sub(r'"(?:[^"\\]|\\.)*"|\'(?:[^\'\\]|\\.)*\'', "'s'", ln) for ln in lines]
     if with_comments:
@@ -205,8 +209,57 @@ def _comment_job(chunk):
     return n, bad[:5]
 
 
+REUSE_PROGRAMS = ['function f(a) { if (a) { while (a) { a--; } } else { switch (a) { case 1: { a++; } default: ; } } return a; }',
+                  'x = { a: function () { try { y(); } catch (e) { z = [1, { b: 2 }]; } finally { w(); } } };',
+                  'a = 1;']
+
+
+def reuse_history(indent, xi, ai, k):
+    """plain: one pretty printer object, a first rendering of program xi abandoned after k fragments, then a complete one of ai"""
+    from calmjs.parse.parsers.es5 import parse
+    from calmjs.parse.unparsers.es5 import pretty_printer
+    P = pretty_printer(indent)
+    g = P(parse(REUSE_PROGRAMS[xi]))
+    for i, f in enumerate(g):
+        if i == k:
+            break
+    g.close()
+    out = ''.join(f.text for f in P(parse(REUSE_PROGRAMS[ai])))
+    return judge_output(out, indent)
+
+
+def _reuse_job(args):
+    indent, xi, ai = args
+    from ..sx import SIntZ
+    E = sx.new_engine(max_decisions=2000)
+
+    def harness():
+        from calmjs.parse.parsers.es5 import parse
+        from calmjs.parse.unparsers.es5 import pretty_printer
+        P = pretty_printer(indent)
+        k = SIntZ(z3.Int('k'))
+        E.solver.add(k.e >= 0, k.e <= 400)
+        g = P(parse(REUSE_PROGRAMS[xi]))
+        i = 0
+        for f in g:
+            if k == i:
+                break
+            i += 1
+            if i > 400:
+                raise sx.SXBound()
+        g.close()
+        out = ''.join(f.text for f in P(parse(REUSE_PROGRAMS[ai])))
+        msg, _ = judge_output(out, indent)
+        E.check(msg is None, 'a pretty printer reused after an abandoned rendering: %s' % msg)
+    E.explore(harness)
+    return args, E.stats(), E.violations[:1], (E.unsupported + E.errors)[:2]
+
+
 def replay(d):
     w = d['input']
+    if 'reuse' in w:
+        msg, out = reuse_history(w['indent'], w['reuse'][0], w['reuse'][1], w['reuse'][2])
+        return bool(msg), 'printer reused after abandoning program %d at fragment %d, then program %d -> %r: %s' % (w['reuse'][0], w['reuse'][2], w['reuse'][1], out[:120], msg or 'ok')
     msg, out = concrete_check(w['text'], w['indent'], w.get('with_comments', False))
     return bool(msg), 'source %r, indent %r -> %r: %s' % (w['text'], w['indent'], out, msg or 'ok')
 
@@ -272,6 +325,25 @@ def main():
             else:
                 run.inconclusive_('comment-leg failure did not reproduce: %r %s' % (text, msg))
     run.leg('replay_with_comments', texts=ncom)
+    # ---- reuse leg: the law also holds for a printer object that was abandoned mid-way before (symbolic abandon index)
+    rres = common.pmap(_reuse_job, [(ind, xi, ai) for ind in ('  ', '\t') for xi in (0, 1) for ai in (0, 1, 2)])
+    rtot = dict(paths=0, z3_checks=0, assertions=0)
+    for args, st, viols, errs in rres:
+        for k in rtot:
+            rtot[k] += st[k]
+        tot['z3_checks'] += st['z3_checks']
+        tot['solver_s'] += st['solver_s']
+        if st['unsupported'] or st['errors'] or st['bound_hits'] or st['reached'] == 0:
+            run.inconclusive_('reuse harness %r: %r' % (args, errs))
+        for msg, w in viols:
+            kk = w.get('k', '0')
+            rpd = {'property': 'C20', 'input': {'reuse': [args[1], args[2], int(kk) if str(kk).isdigit() else 0], 'indent': args[0]}}
+            ok, detail = rp.run_in_subprocess(rpd)
+            if ok:
+                run.violation('C20: ' + re.sub(r"%r|'.*?'|\d+", '..', msg)[:110], detail[:500], rpd)
+            else:
+                run.inconclusive_('reuse violation did not reproduce: %s %r' % (msg, rpd['input']))
+    run.leg('reuse_after_abandon', **rtot)
     run.coverage.update({
         'explanation': 'real pretty printer under SX with a symbolic indentation string (z3 string over space/tab, length <= 3, empty included) and symbolic '
                        'leaf spellings on every structure of the bounded space; per path z3 decides for every line that its leading text equals '
